@@ -44,7 +44,8 @@ def keep(o, is_gt, tf, parts=False):
         f"implies(target_labels is not None and len(target_labels) > 0, {relaxed} or {targeted})",
         f"implies(ignore_attributes is not None, {relaxed} or not exists(a, 0, len(ignore_attributes), "
         f"str_contains({o}.semantic_label.name, ignore_attributes[a]) or exists(b, 0, len({o}.semantic_label.attributes), {o}.semantic_label.attributes[b] == ignore_attributes[a])))",
-        bound("confidence_threshold_list", lambda b: f"{o}.semantic_score > {b}", "0"),
+        # confidence is a criterion for estimates only (the statement; the code applied it to ground truths too until the fix recorded in known_findings.json)
+        f"implies(not {is_gt}, " + bound("confidence_threshold_list", lambda b: f"{o}.semantic_score > {b}", "0") + ")",
         bound("max_x_position_list", lambda b: f"abs({X}) < {b}", "mean(max_x_position_list)"),
         bound("max_y_position_list", lambda b: f"abs({Y}) < {b}", "mean(max_y_position_list)"),
         bound("max_distance_list", lambda b: f"{D} < {b}", "mean(max_distance_list)"),
